@@ -105,6 +105,8 @@ struct Known {
     status: String,
     case_contains: Vec<String>,
     impl_contains: Vec<String>,
+    src_regex: Option<regex::Regex>,
+    impl_regex: Option<regex::Regex>,
     what: String,
 }
 
@@ -122,6 +124,8 @@ fn load_known(path: &str) -> Vec<Known> {
                     status: j["status"].as_str().unwrap_or("").into(),
                     case_contains: strs("case_contains"),
                     impl_contains: strs("impl_contains"),
+                    src_regex: j["match"]["src_regex"].as_str().and_then(|r| regex::Regex::new(r).ok()),
+                    impl_regex: j["match"]["impl_regex"].as_str().and_then(|r| regex::Regex::new(r).ok()),
                     what: j["what"].as_str().unwrap_or("").into(),
                 });
             }
@@ -135,9 +139,11 @@ fn known_match<'a>(known: &'a [Known], prop: &str, case: &Case, impl_ans: &str) 
     known.iter().find(|k| {
         k.status == "open"
             && k.property == prop
-            && !(k.case_contains.is_empty() && k.impl_contains.is_empty())
+            && !(k.case_contains.is_empty() && k.impl_contains.is_empty() && k.src_regex.is_none() && k.impl_regex.is_none())
             && k.case_contains.iter().all(|s| hay.contains(s.as_str()))
             && k.impl_contains.iter().all(|s| impl_ans.contains(s.as_str()))
+            && k.src_regex.as_ref().map_or(true, |r| r.is_match(case.src.as_deref().unwrap_or("")))
+            && k.impl_regex.as_ref().map_or(true, |r| r.is_match(impl_ans))
     })
 }
 
